@@ -145,6 +145,28 @@ class StreamHandlerDouble:
         raise OSError(OTHER[len(self.delivered) % len(OTHER)], "other")
 
 
+def boxes_for(case):
+    """caller-supplied containers (documented constructor arguments) when the case says `share`"""
+    from collections import deque
+    if not case.get("share"):
+        return {}
+    return dict(txPkts=deque(), rxPkts=deque(), txbs=bytearray(), rxbs=bytearray())
+
+
+class Held:
+    """the caller's references to a stack's queues and buffers, taken right after construction"""
+    def __init__(self, stack, boxes):
+        self.stack = stack
+        self.txPkts, self.rxPkts, self.txbs, self.rxbs = stack.txPkts, stack.rxPkts, stack.txbs, stack.rxbs
+        self.given_ok = all(getattr(stack, k) is v for k, v in boxes.items())
+
+    def rebound(self):
+        s = self.stack
+        same = (s.txPkts is self.txPkts and s.rxPkts is self.rxPkts and s.txbs is self.txbs and s.rxbs is self.rxbs
+                and self.given_ok)
+        return "" if same else " !rebound"
+
+
 def ca_of(n):
     return ("127.0.0.1", 6000 + n)
 
@@ -164,7 +186,7 @@ class CHECK(core.Check):
     N_SEARCH = 3000
     RULE = ("call sequences on a real TcpClientStack (kind cli), a ClientStreamStack over a plain handler double (kind cs: the "
             "base Stack loops) or TcpServerStack with 1..3 connections (kind srv): "
-            "transmit of 1..6 packets of 0..6 bytes, service calls whose every socket send/recv is answered from a script "
+            "transmit of 1..6 packets of 0..6 bytes (empty packets included), ~40% of cases with caller-supplied txPkts/rxPkts deques and txbs/rxbs bytearrays (the producer appends to ITS deque; everything observed through the caller's references, identity checked after every call), service calls whose every socket send/recv is answered from a script "
             "(accept k bytes, would block, connection lost, ~5% other error = malformed; data chunks, close), arbitrary "
             "interleavings of serviceTxPkts / serviceTxesAllIx / serviceReceivesAllIx / serviceReceives / serviceConnects; "
             "base Packet (whole buffer) in ~80% and a length-prefixed Packet subclass (parserize override) in ~20%. "
@@ -275,7 +297,7 @@ class CHECK(core.Check):
                 ops.append("R" + self._recvs(rng, framed, fail))
         if rng.random() < 0.6:
             ops += ["Pa64,a64,a64,a64,a64,a64,a64,a64", "R"]
-        return {"kind": "cli", "parser": "framed" if framed else "whole", "ops": ops}
+        return {"kind": "cli", "parser": "framed" if framed else "whole", "ops": ops, "share": rng.random() < 0.4}
 
     def _srv_case(self, rng, fail_ok=True):
         framed = rng.random() < 0.2
@@ -306,7 +328,7 @@ class CHECK(core.Check):
                 ops.append("C")
         if rng.random() < 0.6:
             ops += ["P", "X" + ";".join("%d=a64,a64,a64,a64,a64,a64,a64,a64" % ca for ca in range(1, ncon + 1)), "S"]
-        return {"kind": "srv", "parser": "framed" if framed else "whole", "ops": ops}
+        return {"kind": "srv", "parser": "framed" if framed else "whole", "ops": ops, "share": rng.random() < 0.4}
 
     def _cs_case(self, rng, fail_ok=True):
         """a ClientStreamStack over a plain handler: the client generator without connection loss"""
@@ -318,7 +340,7 @@ class CHECK(core.Check):
             if t[0] in "POR":
                 t = t[0] + ",".join(x for x in t[1:].split(",") if x not in ("l", "d-"))
             ops.append(t)
-        return {"kind": "cs", "parser": c["parser"], "ops": ops}
+        return {"kind": "cs", "parser": c["parser"], "ops": ops, "share": c.get("share", False)}
 
     def generate(self, rng, n, tier):
         for _ in range(n):
@@ -341,7 +363,7 @@ class CHECK(core.Check):
                 for s2 in second:
                     if tier == "thorough" and len(s2) > 5 and len(s1) > 5:
                         continue
-                    yield {"kind": "cli", "parser": "whole",
+                    yield {"kind": "cli", "parser": "whole", "share": (len(s1) + len(s2)) % 2 == 1,
                            "ops": ["c"] + ["t" + hx(p) for p in pks] + ["P" + s1, "P" + s2, "Pa9,a9,a9"]}
 
     # ---- implementation
@@ -389,7 +411,9 @@ class CHECK(core.Check):
         saved = clienting.socket
         clienting.socket = Shim(real_socket, factory)
         try:
-            stack = (FramedClient if framed else stacking.TcpClientStack)(ha=SRV_HA)
+            boxes = boxes_for(case)
+            stack = (FramedClient if framed else stacking.TcpClientStack)(ha=SRV_HA, **boxes)
+            held = Held(stack, boxes)
             out = []
             for tok in case["ops"]:
                 k, arg = tok[0], tok[1:]
@@ -400,7 +424,11 @@ class CHECK(core.Check):
                     if tok == "c":
                         stack.serviceConnect()
                     elif k == "t":
-                        stack.transmit(packeting.Packet(stack=stack, packed=unhx(arg)))
+                        pk = packeting.Packet(stack=stack, packed=unhx(arg))
+                        if boxes and len(held.txPkts) % 2:     # the producer appends to ITS queue
+                            held.txPkts.append(pk)
+                        else:
+                            stack.transmit(pk)
                     elif k == "P":
                         sock.sends = self._script(arg)
                         stack.serviceTxPkts()
@@ -418,10 +446,10 @@ class CHECK(core.Check):
                     err = self._err(ex)
                 except Exception as ex:
                     err = self._err(ex)
-                out.append("%s wire=%s txbs=%s q=%s rxbs=%s rx=%s dl=%s c=%d x=%d" % (
-                    err, hx(socks[-1].wire), hx(stack.txbs), ",".join(hx(p.packed) for p in stack.txPkts),
-                    hx(stack.rxbs), ",".join(hx(p.packed) for p in stack.rxPkts), hx(socks[-1].delivered),
-                    bool(stack.handler.connected), bool(stack.handler.cutoff)))
+                out.append("%s wire=%s txbs=%s q=%s rxbs=%s rx=%s dl=%s c=%d x=%d%s" % (
+                    err, hx(socks[-1].wire), hx(held.txbs), ",".join(hx(p.packed) for p in held.txPkts),
+                    hx(held.rxbs), ",".join(hx(p.packed) for p in held.rxPkts), hx(socks[-1].delivered),
+                    bool(stack.handler.connected), bool(stack.handler.cutoff), held.rebound()))
             return out or ["-"]
         finally:
             clienting.socket = saved
@@ -439,7 +467,9 @@ class CHECK(core.Check):
                 return packeting.Packet(stack=self, packed=raw[:1 + raw[0]])
 
         h = StreamHandlerDouble()
-        stack = (FramedCS if framed else stacking.ClientStreamStack)(handler=h)
+        boxes = boxes_for(case)
+        stack = (FramedCS if framed else stacking.ClientStreamStack)(handler=h, **boxes)
+        held = Held(stack, boxes)
         if not case["ops"] or case["ops"][0] != "c" or "c" in case["ops"][1:]:
             raise ValueError("bad-op")       # the handler is opened by Stack.__init__: `c` comes first, once
         out = []
@@ -453,7 +483,11 @@ class CHECK(core.Check):
                 if tok == "c":
                     stack.reopen()
                 elif k == "t":
-                    stack.transmit(packeting.Packet(stack=stack, packed=unhx(arg)))
+                    pk = packeting.Packet(stack=stack, packed=unhx(arg))
+                    if boxes and len(held.txPkts) % 2:
+                        held.txPkts.append(pk)
+                    else:
+                        stack.transmit(pk)
                 elif k == "P":
                     h.sends = self._script(arg)
                     stack.serviceTxPkts()
@@ -471,9 +505,10 @@ class CHECK(core.Check):
                 err = self._err(ex)
             except Exception as ex:
                 err = self._err(ex)
-            out.append("%s wire=%s txbs=%s q=%s rxbs=%s rx=%s dl=%s c=%d x=0" % (
-                err, hx(h.wire), hx(stack.txbs), ",".join(hx(p.packed) for p in stack.txPkts),
-                hx(stack.rxbs), ",".join(hx(p.packed) for p in stack.rxPkts), hx(h.delivered), bool(h.opened)))
+            out.append("%s wire=%s txbs=%s q=%s rxbs=%s rx=%s dl=%s c=%d x=0%s" % (
+                err, hx(h.wire), hx(held.txbs), ",".join(hx(p.packed) for p in held.txPkts),
+                hx(held.rxbs), ",".join(hx(p.packed) for p in held.rxPkts), hx(h.delivered), bool(h.opened),
+                held.rebound()))
         return out or ["-"]
 
     def _impl_srv(self, case):
@@ -492,7 +527,9 @@ class CHECK(core.Check):
         saved = serving.socket
         serving.socket = Shim(real_socket, lambda: FakeListenSock(pending))
         try:
-            stack = (FramedServer if framed else stacking.TcpServerStack)(ha=SRV_HA)
+            boxes = boxes_for(case)
+            stack = (FramedServer if framed else stacking.TcpServerStack)(ha=SRV_HA, **boxes)
+            held = Held(stack, boxes)
             out = []
             for tok in case["ops"]:
                 k, arg = tok[0], tok[1:]
@@ -507,14 +544,18 @@ class CHECK(core.Check):
                         else:
                             socks[ca] = FakeStreamSock(peer=ca_of(ca), name=SRV_HA)
                             # bytes already received from this address over an earlier connection
-                            socks[ca].base = b"".join(bytes(p.packed) for p, a in stack.rxPkts if a == ca_of(ca))
+                            socks[ca].base = b"".join(bytes(p.packed) for p, a in held.rxPkts if a == ca_of(ca))
                             pending.append((socks[ca], ca_of(ca)))
                             stack.serviceConnects()
                     elif tok == "C":
                         stack.serviceConnects()
                     elif k == "t":
                         ca, h = arg.split(":")
-                        stack.transmit(packeting.Packet(stack=stack, packed=unhx(h)), ca_of(int(ca)))
+                        pk = packeting.Packet(stack=stack, packed=unhx(h))
+                        if boxes and len(held.txPkts) % 2:
+                            held.txPkts.append((pk, ca_of(int(ca))))
+                        else:
+                            stack.transmit(pk, ca_of(int(ca)))
                     elif tok == "P":
                         stack.serviceTxPkts()
                     elif k in "XV":
@@ -545,8 +586,8 @@ class CHECK(core.Check):
                                                      hx(ix.rxbs), bool(ix.cutoff), hx(ix.cs.base + bytes(ix.cs.delivered))))
                 out.append("%s ix=%s q=%s rx=%s" % (
                     err, "/".join(ixs),
-                    ",".join("%d:%s" % (n_of(ca), hx(p.packed)) for p, ca in stack.txPkts),
-                    ",".join("%d:%s" % (n_of(ca), hx(p.packed)) for p, ca in stack.rxPkts)))
+                    ",".join("%d:%s" % (n_of(ca), hx(p.packed)) for p, ca in held.txPkts),
+                    ",".join("%d:%s" % (n_of(ca), hx(p.packed)) for p, ca in held.rxPkts)) + held.rebound())
             return out or ["-"]
         finally:
             serving.socket = saved
@@ -583,6 +624,10 @@ class CHECK(core.Check):
             return None if out[0] == "bad-op" else out[0]
         if len(out) != len(case["ops"]):
             return "implementation answered %d of %d calls" % (len(out), len(case["ops"]))
+        for tok, line in zip(case["ops"], out):
+            if line.endswith("!rebound"):
+                return ("after %s the stack no longer uses the queue/buffer objects it had (a caller-supplied container or a "
+                        "saved reference is orphaned)" % tok[:12])
         if not self._no_fail(case):
             return None
         return self._oracle_cli(case, out) if case["kind"] in ("cli", "cs") else self._oracle_srv(case, out)
